@@ -276,7 +276,8 @@ class _D(Domain):
 
     def resolve_call(self, st, call, walker):
         # private helpers extracted from the analysed code are followed
-        r = walker.resolve_helper(st, call)
+        # (rule.instantiate is the factory call the rules look for)
+        r = walker.resolve_helper(st, call, skip={'instantiate'})
         if r is None and isinstance(call.func, ast.Attribute) and not (
                 isinstance(call.func.value, ast.Name)
                 and call.func.value.id == 'self'):
